@@ -7,6 +7,7 @@
    Fetcher as of the C11 fix commits in /repo (4906af9 8808eaf 8d69ad3 3ee1a3d = /verif/fixes/C11-*.diff). *)
 From Coq Require Import List NArith Bool.
 From MW Require Import C11.Model C11.Proofs C11.Proofs2 C11.Proofs3 C11.ProofsFuel.
+From MW Require Import C11.ModelContinue C11.Gen_continue C11.ProofsContinue.
 Import ListNotations.
 
 (* Termination with an explicit measure: every scheduling decision on a non-final state strictly decreases
@@ -177,3 +178,53 @@ Example C11_fuel_example :
   imgs_of fx_W 1 (mkRev 10 None [5] [7])%N = [7; 9]%N.
 Proof. exact fuel_example. Qed.
 Print Assumptions C11_fuel_example.
+
+(* ------------------------------------------------------------------------------------------------------------
+   Query continuation is PER QUERY (coq/C11/ModelContinue.v: merge_data, _handle_query_continue, _do_request of
+   sapi.py; `gen_stop` is the `if` test of _handle_query_continue, translated from the source on every run by
+   vt/gen/c11_sapi.py, which also pins the statements of the three functions and every write to `qccount`). *)
+
+(* the translated give-up condition: a query is given up iff the wiki hands out again the continuation value it
+   has just been sent - whatever the client's counter of continuation rounds says *)
+Theorem C11_continue_stop_only_on_repeat : forall same qccount, gen_stop same qccount = same.
+Proof. exact gen_stop_spec. Qed.
+Print Assumptions C11_continue_stop_only_on_repeat.
+
+(* one query: when the wiki serves the answer in slices sl along a chain of fresh continuation values, the client
+   returns the merge of ALL slices, for every value of its counter, and counts one round per continuation *)
+Theorem C11_continue_query_complete : forall srv q sl, Chain srv q None sl ->
+  forall fuel n, (length sl <= fuel)%nat ->
+  query gen_stop srv fuel n q = ((n + N.of_nat (pred (length sl)))%N, Some (full_answer sl)).
+Proof. exact query_complete. Qed.
+Print Assumptions C11_continue_query_complete.
+
+(* no cross-query state: for ANY server (also one that repeats values or never ends) and ANY list of queries made
+   one after the other on one client, every answer is the one a fresh client gives to that query alone *)
+Theorem C11_continue_no_cross_query_state : forall srv fuel qs n,
+  snd (run_queries gen_stop srv fuel n qs) = map (fun q => snd (query gen_stop srv fuel 0%N q)) qs.
+Proof. exact run_queries_answers. Qed.
+Print Assumptions C11_continue_no_cross_query_state.
+
+(* hence in a fetch of any size every query is answered in full *)
+Theorem C11_continue_every_query_of_a_fetch_complete : forall srv fuel qs n,
+  (forall q, In q qs -> exists sl, Chain srv q None sl /\ (length sl <= fuel)%nat) ->
+  forall i q, nth_error qs i = Some q ->
+  exists sl, Chain srv q None sl /\
+             nth_error (snd (run_queries gen_stop srv fuel n qs)) i = Some (Some (full_answer sl)).
+Proof. exact run_queries_complete. Qed.
+Print Assumptions C11_continue_every_query_of_a_fetch_complete.
+
+(* non-vacuity: two queries of three slices each, asked 1, 2, 1 on one client: 6 rounds, all answers complete *)
+Example C11_continue_example :
+  run_queries gen_stop (srv_of ex_script) 5 0%N [1; 2; 1]%N
+  = (6, [Some [(7, [1;2;3;4;5]); (8, [9])]; Some [(8, [1;2;3])]; Some [(7, [1;2;3;4;5]); (8, [9])]])%N.
+Proof. exact ex_run. Qed.
+Print Assumptions C11_continue_example.
+
+(* the hypothesis matters: a give-up condition that looks at the counter (bound 3) makes the answer to a query
+   depend on the queries made before it *)
+Theorem C11_continue_counting_stop_refuted :
+  exists srv fuel qs i, nth_error (snd (run_queries (stop_counting 3%N) srv fuel 0%N qs)) i
+                     <> nth_error (map (fun q => snd (query (stop_counting 3%N) srv fuel 0%N q)) qs) i.
+Proof. exact counting_stop_is_cross_query. Qed.
+Print Assumptions C11_continue_counting_stop_refuted.
